@@ -188,10 +188,10 @@ P('C03',
   level='fault_enumeration',
   extra_c=['ttx_shim.c'],
   watchdog=900,
-  technique='property-based testing with exhaustive fault injection: generated base transmissions, every single-bit fault of every Hamming protected byte / triplet enumerated, double-bit header / address / designation faults enumerated, double-bit faults in every X/26 triplet, parity and burst faults sampled; metamorphic oracle against reference runs (fault-free, packet dropped, enhancement data cut, pages in progress abandoned)',
+  technique='property-based testing with exhaustive fault injection: generated base transmissions, every single-bit fault of every Hamming protected byte / triplet enumerated, double-bit header / address / designation faults enumerated, double-bit faults in every X/26 / X/28 / M/29 triplet, in page link bytes and in TOP basic table rows, parity and burst faults sampled; metamorphic oracle against reference runs (fault-free, packet dropped, enhancement data cut, pages in progress abandoned)',
   rule='base = serial or parallel transmission of 1-3 magazines x 1-2 pages over 2-3 cycles with and without erase (rows from the C02 grammar, X/26 character '
-       'replacements, X/27/0, X/27/4, X/28/0, M/29/0, 8/30 format 1 and 2); faults per base: every single bit of every Hamming 8/4 byte and 24/18 triplet, all 28 '
-       'in-byte double errors of every address / designation byte and of the eight header bytes, two bit errors in every triplet of every X/26 packet (2 sampled pairs each), parity errors in every text row, sampled bursts with dropped packets. '
+       'replacements incl. address-row-0 triplets, X/27/0, X/27/4, X/28/0 /1 /4, M/29/0 /1 /4, 8/30 format 1 and 2; one base in four with the TOP basic table page 1F0); faults per base: every single bit of every Hamming 8/4 byte and 24/18 triplet, all 28 '
+       'in-byte double errors of every address / designation byte and of the eight header bytes, two bit errors in every triplet of every X/26, X/28 and M/29 packet, in every byte of the page links of X/27/0 and 8/30 and in 6 bytes of every basic table row (sampled pairs), parity errors in every text row, sampled bursts with dropped packets. '
        'Non-trivial base: contains an enhancement or service packet and a retransmission without erase; distinct = hash of consumed choices. The histogram counts the fault runs per class.',
   level_text='Fault enumeration over generated transmissions with a metamorphic oracle: (1) each single-bit fault in a Hamming protected byte or triplet must leave '
              'the set of cached pages, every fetched page (levels 1.5 and 2.5: all cells, colour map, links) and the complete event log identical to the fault-free run; '
